@@ -106,9 +106,12 @@ def base_cases(rng, tier):
     n = 70 if tier == "quick" else 500
     out = []
     for _ in range(n):
-        mids = rng.sample([0, 1, 2, 3, 4, 5, 6, 7], rng.randint(2, 4))
+        # 6/7: one trait-generic method at two instantiations; 38/39: same-named method-generic methods of two different traits
+        mids = rng.sample([0, 1, 2, 3, 4, 5, 6, 7, 38, 39], rng.randint(2, 4))
+        if rng.random() < 0.15:
+            mids = sorted(set(mids) | {38, 39})
         g = K.Gen(rng, mids=mids, n_terms=(2, 6), n_events=(4, 16), ordered_frac=0.0, clone_frac=0.1,
-                  final=rng.choice(["drop", "verify", "report"]), partial_frac=0.3, call_mids=sorted(set(mids) | {6, 7}))
+                  final=rng.choice(["drop", "verify", "report"]), partial_frac=0.3, call_mids=sorted(set(mids) | {6, 7, 38, 39}))
         out.append(g.case())
     for _ in range(n):
         c = C03.gen_case(rng); c.pop("_steered", None); out.append(c)
@@ -256,14 +259,26 @@ def run(tier, seed):
     if cpayload is not None:
         C.violation("C18", C.write_replay("C18", seed, cpayload))
         failures_t = True
+    # routing also must not matter for LENT values: threads lending through ONE shared &Unimock (instead of a clone each) get their own
+    # values (C13's thread cases under the controlled scheduler, every interleaving of the small programs; stress search as fallback)
+    lend_n, lend_payload = 0, None
+    if not (failures or failures_t):
+        from . import C13
+        lend_n, lend_payload = C13.concurrent_lending(rng, tier, "C18")
+        if lend_payload is not None:
+            lend_payload["seed"] = seed
+            no_input = lend_payload.pop("no_input", False)
+            C.violation("C18", C.write_replay("C18", seed, lend_payload), no_input=no_input)
+            failures_t = True
     distinct = {canon(strip(b)): b for b in bases}
     nt = 0
     for bi, b in enumerate(bases):
         if len({t["mid"] for t in b["terms"]}) >= 2 and runs[4 * bi + 1]["terms"] != b["terms"]:
             nt += 1
     cov = {
-        "obligations": len(obligations) + 4, "discharged": len(obligations) + (0 if failures else 1) + (0 if tfail else 1) + (0 if dpayload else 1) + (0 if cpayload else 1),
+        "obligations": len(obligations) + 5, "discharged": len(obligations) + (0 if failures else 1) + (0 if tfail else 1) + (0 if dpayload else 1) + (0 if cpayload else 1) + (0 if lend_payload else 1),
         **ccov,
+        "lending_part": {"evaluations": lend_n},
         "receiver_part": {"evaluations": dn, "rule": "C15 generator: clause sets over trait D, calls through every receiver kind on the original and on clones"},
         "tuple_part": {"evaluations": len(tcases), "kinds": dict(collections.Counter(m[1] for m in tmeta)),
                        "rule": "flat tuples of every arity 2..16 (adjacent overlapping patterns; ordered clauses only) + base cases written as chunked tuples, "
@@ -271,7 +286,7 @@ def run(tier, seed):
         "checker_cmd": f"make -C /verif/coq ; ./check C18 --tier {tier}", "trusted_base": C.TRUSTED_BASE,
         "theorems": obligations,
         "correspondence_obligation": "base / permuted / re-routed / twin-interleaved runs: pairwise identical projections and equal to the model",
-        "evaluations": len(runs) + len(tcases) + dn + cn, "distinct_nontrivial": min(nt, len(distinct)), "rule": RULE,
+        "evaluations": len(runs) + len(tcases) + dn + cn + lend_n, "distinct_nontrivial": min(nt, len(distinct)), "rule": RULE,
         "samples": [K.harness_line(runs[k], "sample") for k in (1, 2, 3)],
         "distribution": dict(collections.Counter(m[1] for m in meta)),
     }
@@ -290,7 +305,7 @@ def run(tier, seed):
         return 1
     C.write_evidence("C18", tier, seed, cov, time.time() - t0, 0,
                      assumptions=["model/implementation agreement is established on the generated cases only"])
-    print(f"C18: {len(obligations)} theorems closed; {len(runs)} paired + {len(tcases)} tuple-layout + {dn} receiver-kind + {cn} scheduled co-executions agree ({time.time()-t0:.1f}s)")
+    print(f"C18: {len(obligations)} theorems closed; {len(runs)} paired + {len(tcases)} tuple-layout + {dn} receiver-kind + {cn} scheduled + {lend_n} concurrent-lending co-executions agree ({time.time()-t0:.1f}s)")
     return 0
 
 
@@ -301,6 +316,9 @@ def replay(path):
     if payload.get("part") == "sched":
         from ..layer_b import replay_sched
         return replay_sched("C18", payload, path)
+    if payload.get("part") == "lending":
+        from . import C13
+        return C13.replay_lending("C18", payload, path)
     if payload.get("part") == "tuples":
         case = payload["case"]
         ci, cm = T.both("tuples18", [case])
